@@ -162,6 +162,20 @@ def _do(op, salt=0):
     kind, p = op
     if kind == 'compile':
         return _compile(sv, p, salt)
+    if kind == 'storm':
+        # an eviction storm: more distinct never-seen-before arguments than any bounded memo holds (compile cache 500, util.lower 512),
+        # so that every bounded table of the library is driven through "full" at least once while the other thread is parked
+        import bs4
+        if 'storm' not in _W:
+            _W['storm'] = bs4.BeautifulSoup('<div><p lang="x" class="x" t="x">x</p></div>', 'html.parser')
+        el = _W['storm'].p
+        out = []
+        for n in range(p):
+            w = 'w%d-%d' % (salt, n)
+            el['lang'] = w + '-x'
+            el['class'] = [w]
+            out.append(bool(sv.match('.%s:lang("%s"):nth-child(%d), [t%s]' % (w, w, n % 7, w), el)))
+        return out
     if kind == 'fragmatch':
         # two different detached (parent-less) elements: index chosen by the op
         import bs4
@@ -474,6 +488,15 @@ def main(tier):
             allk = list(range(60, 9000, 83 if tier == 'quick' else 17))
             for i in range(0, len(allk), 12):
                 jobs.append((x, y, allk[i:i + 12]))
+        # (1) compilations that go through an internal REWRITE of the selector ([a!=v] -> :not([a=v]), the pre-compiled definitions of the
+        # state pseudo-classes): whatever holder the rewrite uses must be per call; every line in both tiers.
+        # (2) a parked select / match against an eviction storm of the other thread: check-then-act on any bounded process-wide table
+        rew = [('compile', 'p[data-k!="1"]'), ('compile', '[class!="x"] > b:checked'), ('compile', ':not([t!=y]):default')]
+        storm_pairs = [(('select', ':lang(en)'), ('storm', 600)), (('select', 'p:nth-child(2n+1)'), ('storm', 600)), (('compile', 'p:lang(en) > :nth-child(2)'), ('storm', 600))]
+        for (x, y) in [(x, y) for x in rew for y in rew if x != y] + storm_pairs:
+            allk = list(range(1, 700 if y[0] == 'storm' else 500))
+            for i in range(0, len(allk), 20 if y[0] == 'storm' else 60):
+                jobs.append((x, y, allk[i:i + (20 if y[0] == 'storm' else 60)]))
         for (x, y) in ((('rangedoc', ('input:out-of-range', 'leap')), ('rangedoc', ('input:out-of-range', 'common'))),
                        (('rangedoc', ('input:in-range', 'common')), ('rangedoc', ('input:out-of-range', 'leap'))),
                        (('rangedoc', ('input:out-of-range', 'common')), ('rangedoc', ('input:in-range', 'leap')))):
